@@ -4,7 +4,8 @@
    it exactly — is C07's "consumes exactly the bytes its writer produced"; the composition over
    whole files is exercised by the correspondence run: every field of every generated file.)
    Statements only; proofs in StatusFacts.v. *)
-From Coq Require Import String.
+From Sbdf Require Import ImpCall Gen.Prog ImpFacts ImpFacts7 ImpFactsFrame.
+From Coq Require Import String List.
 From Sbdf Require Import File PrimFacts VaFacts SliceFacts StatusFacts LeafTie.
 From Sbdf.Gen Require Leaf.
 From Sbdf.Gen Require Facts.
@@ -85,3 +86,55 @@ Theorem C09_descriptions :
   forallb (fun p => forallb (fun q => Z.eqb (fst p) (fst q) || negb (String.eqb (snd p) (snd q))) Facts.err_table) Facts.err_table = true.
 Proof. split; [exact every_used_status_described|exact descriptions_distinct]. Qed.
 Print Assumptions C09_descriptions.
+
+(* ---- the framing layer from the source.  sbdf_read_int8, sbdf_sec_read, sbdf_sec_expect,
+   sbdf_fh_read and sbdf_vt_read (src/internals.c, fileheader.c, valuetype.c) are translated into
+   Gen/Prog.v on every run, with the calls between them (ImpCall.v); on EVERY byte stream each
+   returns exactly what the model function of Prim.v returns - the status (missing magic number,
+   unexpected section id, I/O error at the end of the stream), the value delivered through its
+   out-parameter, and the stream position.  So the theorems above about markers, section ids and
+   type ids speak about these functions as they are written. *)
+Theorem C09_source_sec_read : forall s B, Forall byte s ->
+  exists f0, forall f, (f0 <= f)%nat ->
+  match sec_read s with
+  | Ok (x, s') => exists fin, callE prog_env f prog_sbdf_sec_read [tok; tok] s B = OReturn (VInt SBDF_OK) fin /\
+                              lookup "*id" (vars fin) = Some (VInt x) /\ inb fin = s' /\ outb fin = []
+  | Err st => exists fin, callE prog_env f prog_sbdf_sec_read [tok; tok] s B = OReturn (VInt st) fin /\ outb fin = []
+  end.
+Proof. exact sec_read_source. Qed.
+Print Assumptions C09_source_sec_read.
+
+Theorem C09_source_sec_expect : forall id s B, Forall byte s -> int_min <= id <= int_max ->
+  exists f0, forall f, (f0 <= f)%nat ->
+  match sec_expect id s with
+  | Ok (_, s') => exists fin, callE prog_env f prog_sbdf_sec_expect [tok; VInt id] s B = OReturn (VInt SBDF_OK) fin /\ inb fin = s' /\ outb fin = []
+  | Err st => exists fin, callE prog_env f prog_sbdf_sec_expect [tok; VInt id] s B = OReturn (VInt st) fin /\ outb fin = []
+  end.
+Proof. exact sec_expect_source. Qed.
+Print Assumptions C09_source_sec_expect.
+
+Theorem C09_source_fh_read : forall s B, Forall byte s ->
+  exists f0, forall f, (f0 <= f)%nat ->
+  match fh_read s with
+  | Ok ((major, minor), s') => exists fin, callE prog_env f prog_sbdf_fh_read [tok; tok; tok] s B = OReturn (VInt SBDF_OK) fin /\
+        lookup "*major" (vars fin) = Some (VInt major) /\ lookup "*minor" (vars fin) = Some (VInt minor) /\ inb fin = s' /\ outb fin = []
+  | Err st => exists fin, callE prog_env f prog_sbdf_fh_read [tok; tok; tok] s B = OReturn (VInt st) fin /\ outb fin = []
+  end.
+Proof. exact fh_read_source. Qed.
+Print Assumptions C09_source_fh_read.
+
+Theorem C09_source_vt_read : forall s B, Forall byte s ->
+  exists f0, forall f, (f0 <= f)%nat ->
+  match vt_read s with
+  | Ok (x, s') => exists fin, callE prog_env f prog_sbdf_vt_read [tok; tok] s B = OReturn (VInt SBDF_OK) fin /\
+                              lookup "*v" (vars fin) = Some (VInt x) /\ inb fin = s' /\ outb fin = []
+  | Err st => exists fin, callE prog_env f prog_sbdf_vt_read [tok; tok] s B = OReturn (VInt st) fin /\ outb fin = []
+  end.
+Proof. exact vt_read_source. Qed.
+Print Assumptions C09_source_vt_read.
+
+Example C09_source_runs :
+  (match callE prog_env 100 prog_sbdf_fh_read [tok; tok; tok] [223; 91; 2; 1; 0] 0 with OReturn v _ => Some v | _ => None end) = Some (VInt SBDF_ERROR_UNEXPECTED_SECTION_ID) /\
+  (match callE prog_env 100 prog_sbdf_fh_read [tok; tok; tok] [223; 90; 1; 1; 0] 0 with OReturn v _ => Some v | _ => None end) = Some (VInt SBDF_ERROR_MAGIC_NUMBER_MISSING) /\
+  (match callE prog_env 100 prog_sbdf_fh_read [tok; tok; tok] [223; 91; 1; 1] 0 with OReturn v _ => Some v | _ => None end) = Some (VInt SBDF_ERROR_IO).
+Proof. repeat split; vm_compute; reflexivity. Qed.
